@@ -224,7 +224,7 @@ class Scn:
 
 def mixed_scenario(rng, L, tname, sname, cfg, answers=None, npk=None, malformed_p=0.25, badblk_p=0.12, difop_at=None, dual=None,
                    host=False, residual=True, temp_query=False, dev_query=False, big_steps=False, gap_p=0.05, start_az=None, step=None, seq0=None,
-                   dist=None, fov=None, rpm=None, zero_gap=False, tail_invalid_p=0.25, bpv4=None, reversal=None, model_seq=None, host_base=1700000000000000):
+                   dist=None, fov=None, rpm=None, zero_gap=False, tail_invalid_p=0.25, bpv4=None, reversal=None, model_seq=None, host_base=1700000000000000, cali_kind=None):
     """one scenario: a DIFOP/MSOP stream for lidar `tname` with malformed packets interleaved"""
     l = L[tname]
     s = Scn(sname)
@@ -241,7 +241,7 @@ def mixed_scenario(rng, L, tname, sname, cfg, answers=None, npk=None, malformed_
             rpm = rng.choice([300, 600, 600, 1200, 0, 59, 61, 1500])
         if fov is None:
             fov = rng.choice([(0, 36000), (0, 36000), (4500, 31500), (31500, 4500), (0, 0)])
-        kd, vert, horiz, raw = cali_table(rng, l, 'valid' if rng.random() < 0.7 else None)
+        kd, vert, horiz, raw = cali_table(rng, l, cali_kind or ('valid' if rng.random() < 0.7 else None))
         if reversal is None:
             reversal = rng.choice([0, 0, 1, 0x80]) if tname == 'RSBP' else 0
         good_d = l.difop(dual=dual, rpm=rpm, fov=fov, vert=vert, horiz=horiz, raw_cali=raw, reversal=reversal)
